@@ -111,6 +111,8 @@ def regenerate():
     notes["from_arg"] = translate_fromarg.generate(REPO, os.path.join(COQ, "Gen", "SrcFromArg.v"), os.path.join(HARNESS, "fallback"))
     import translate_tables
     notes["tables"] = translate_tables.generate(REPO, os.path.join(COQ, "Gen", "SrcTables.v"), os.path.join(HARNESS, "fallback"))
+    import translate_tojson
+    notes["to_json"] = translate_tojson.generate(REPO, os.path.join(COQ, "Gen", "SrcToJson.v"), os.path.join(HARNESS, "fallback"))
     import translate_deps
     notes["deps"] = translate_deps.generate(REPO, os.path.join(COQ, "Gen", "SrcDeps.v"), os.path.join(HARNESS, "fallback"))
     return notes
